@@ -458,6 +458,37 @@ def mentions_float(t, u, seen=None):
     return False
 
 
+def count_nan(d):
+    if isinstance(d, float):
+        return 1 if math.isnan(d) else 0
+    if isinstance(d, list):
+        return sum(count_nan(x) for x in d)
+    if isinstance(d, dict):
+        return sum(count_nan(v) for v in d.values())
+    return 0
+
+
+def mentions_set(t, u, seen=None):
+    seen = set() if seen is None else seen
+    k = t[0]
+    if k == "any":
+        return False
+    if k == "coll":
+        return t[1] in ("set", "frozenset", "abstractset") or mentions_set(t[2], u, seen)
+    if k == "con":
+        return mentions_set(t[2], u, seen)
+    if k in ("tuple", "union"):
+        return any(mentions_set(x, u, seen) for x in t[1])
+    if k == "map":
+        return mentions_set(t[1], u, seen) or mentions_set(t[2], u, seen)
+    if k == "obj":
+        if t[1] in seen:
+            return False
+        seen.add(t[1])
+        return any(mentions_set(f["ty"], u, seen) for f in u["classes"][t[1]]["fields"])
+    return False
+
+
 def has_inexact_int(d):
     """an int that float() rounds (beyond 2^53): the model's floats are exact rationals q/4, so the int -> float conversion of
     such a datum is outside the modelled fragment"""
